@@ -675,6 +675,41 @@ __CPROVER_requires((width == 0 || __CPROVER_w_ok(width, sizeof(ssize_t))) && (he
 __CPROVER_ensures(verif_exc == 0)
 __CPROVER_assigns(D_ASSIGNS; width != 0: *width; height != 0: *height);
 
+/* ================= one text cell: the body of draw_text_v's character loop, cut as a function ================= */
+/* The per-pixel model of text (geometry of src/Image.cc's 5x7 font): a character whose cell origin is (x_pos, y_pos) colours the pixels
+ * (x_pos + cx, y_pos + cy), 0 <= cx < 5, 0 <= cy < 7, whose bit is set in font[ch'][cy * 5 + cx] (ch' = ch - 0x20, bytes outside
+ * 0x20..0x7F drawn as 0x7F), on top of a 6 x 9 background box at (x_pos - 1, y_pos - 1) when ba != 0; the cursor advances by 6.  '\n'
+ * draws a 1 x 9 background strip at (x_pos - 1, y_pos - 1), moves the cursor to (x, y_pos + 8); '\r' does nothing.  Everything else is
+ * untouched -- for ANY cursor position, in particular cells partly or wholly outside the canvas (only their in-canvas pixels exist).
+ * The background colour is decided for an opaque background (ba == 0xFF; blending is fill_rect's contract with g_tup_ok, not used here).
+ * x_pos / y_pos / max_x_pos are the loop-carried locals of draw_text_v, file-scope here; g_tr.. = ghost snapshot after the background. */
+ssize_t x_pos, y_pos, max_x_pos;
+uint64_t g_tr, g_tg, g_tb, g_ta;
+extern uint8_t font[96][35];
+#define TEXT_SNAP (g_tr = g_dr, g_tg = g_dg, g_tb = g_db, g_ta = g_da)
+#define TEXT_POS_OK(v) (-(C07_CMAX / 2) < (v) && (v) < C07_CMAX / 2)
+#define CELL_CH(c) ((uint8_t)((((c) < 0x20 || (c) > 0x7F) ? 0x7F : (c)) - 0x20))
+#define GLYPH_RAW(c, cx, cy) ((cx) >= 0 && (cx) < 5 && (cy) >= 0 && (cy) < 7 && font[c][(cy) * 5 + (cx)] != 0)
+#define CELL_DONE(Y, X) (GLYPH_RAW(ch, g_dx - x_pos, g_dy - y_pos) && ((g_dy - y_pos) < (Y) || ((g_dy - y_pos) == (Y) && (g_dx - x_pos) < (X))))
+#define CELL_INV(Y, X) ((D_IN && CELL_DONE(Y, X)) ? COLOURED : D4(g_tr, g_tg, g_tb, g_ta))
+#define BG_COLOURED D4(WCH(br, self), WCH(bg, self), WCH(bb, self), WA(ba, self))
+#define OLD_XP __CPROVER_old(x_pos)
+#define OLD_YP __CPROVER_old(y_pos)
+#define CELL_BG(W) (D_IN && ba != 0 && INRECT(g_dx, g_dy, OLD_XP - 1, OLD_YP - 1, W, 9))
+#define CELL_PLAIN (ch_in != '\r' && ch_in != '\n')
+void Image_draw_text_cell(Image* self, ssize_t x, uint8_t ch_in, uint64_t r, uint64_t g, uint64_t b, uint64_t a, uint64_t br, uint64_t bg, uint64_t bb, uint64_t ba)
+DST_REQ(self)
+__CPROVER_requires(!g_tup_ok)
+__CPROVER_requires(TEXT_POS_OK(x) && TEXT_POS_OK(x_pos) && TEXT_POS_OK(y_pos))
+__CPROVER_ensures(verif_exc == 0)
+__CPROVER_ensures(ch_in == '\r' ==> (D4_OLD && x_pos == OLD_XP && y_pos == OLD_YP && max_x_pos == __CPROVER_old(max_x_pos)))
+__CPROVER_ensures(ch_in == '\n' ==> (x_pos == x && y_pos == OLD_YP + 8))
+__CPROVER_ensures(ch_in == '\n' ==> (CELL_BG(1) ? (ba == 0xFF ==> BG_COLOURED) : D4_OLD))
+__CPROVER_ensures(CELL_PLAIN ==> (x_pos == OLD_XP + 6 && y_pos == OLD_YP && max_x_pos == __CPROVER_old(max_x_pos)))
+__CPROVER_ensures(CELL_PLAIN ==> ((D_IN && GLYPH_RAW(CELL_CH(ch_in), g_dx - OLD_XP, g_dy - OLD_YP)) ? COLOURED : CELL_BG(6) ? (ba == 0xFF ==> BG_COLOURED) : D4_OLD))
+__CPROVER_ensures(GHOST_WF(self, g_dr, g_dg, g_db, g_da))
+__CPROVER_assigns(D_ASSIGNS, x_pos, y_pos, max_x_pos, g_tr, g_tg, g_tb, g_ta);
+
 /* ================= clipping invariance (lemmas over the contracts) ================= */
 /* drawing on a small canvas equals drawing on a larger one (same pixel format) and cropping: for every pixel of the small canvas, starting
  * from the same value, the same call leaves the same value on both canvases.  g_c1* = the result on the small canvas. */
